@@ -357,33 +357,42 @@ pub enum TestFunction {
 
 impl TestFunction {
     pub fn try_new(name: &str, args: Vec<FnArg>) -> Parsed<Self> {
-        fn with_node_type_validation<'a>(
-            a: &'a FnArg,
-            name: &str,
-        ) -> Result<&'a FnArg, JsonPathError> {
-            if a.is_lit() {
-                Err(JsonPathError::InvalidJsonPath(format!(
-                    "Invalid argument for the function `{}`: expected a node, got a literal",
-                    name
-                )))
-            } else if a.is_filter() {
-                Err(JsonPathError::InvalidJsonPath(format!(
-                    "Invalid argument for the function `{}`: expected a node, got a filter",
-                    name
-                )))
-            } else {
+        // RFC 9535 2.4.3: an argument must be convertible to the declared type of the parameter
+        fn value_type<'a>(a: &'a FnArg, name: &str) -> Result<&'a FnArg, JsonPathError> {
+            if a.is_value_type() {
                 Ok(a)
+            } else {
+                Err(JsonPathError::InvalidJsonPath(format!(
+                    "Invalid argument for the function `{}`: expected a value (a literal, a singular query or a function returning a value)",
+                    name
+                )))
+            }
+        }
+        fn nodes_type<'a>(a: &'a FnArg, name: &str) -> Result<&'a FnArg, JsonPathError> {
+            if a.is_nodes_type() {
+                Ok(a)
+            } else {
+                Err(JsonPathError::InvalidJsonPath(format!(
+                    "Invalid argument for the function `{}`: expected a query",
+                    name
+                )))
             }
         }
 
         match (name, args.as_slice()) {
-            ("length", [a]) => Ok(TestFunction::Length(Box::new(a.clone()))),
-            ("value", [a]) => Ok(TestFunction::Value(a.clone())),
-            ("count", [a]) => Ok(TestFunction::Count(
-                with_node_type_validation(a, name)?.clone(),
+            ("length", [a]) => Ok(TestFunction::Length(Box::new(
+                value_type(a, name)?.clone(),
+            ))),
+            ("value", [a]) => Ok(TestFunction::Value(nodes_type(a, name)?.clone())),
+            ("count", [a]) => Ok(TestFunction::Count(nodes_type(a, name)?.clone())),
+            ("search", [a, b]) => Ok(TestFunction::Search(
+                value_type(a, name)?.clone(),
+                value_type(b, name)?.clone(),
             )),
-            ("search", [a, b]) => Ok(TestFunction::Search(a.clone(), b.clone())),
-            ("match", [a, b]) => Ok(TestFunction::Match(a.clone(), b.clone())),
+            ("match", [a, b]) => Ok(TestFunction::Match(
+                value_type(a, name)?.clone(),
+                value_type(b, name)?.clone(),
+            )),
             ("length" | "value" | "count" | "match" | "search", args) => {
                 Err(JsonPathError::InvalidJsonPath(format!(
                     "Invalid number of arguments for the function `{}`: got {}",
@@ -442,6 +451,34 @@ impl FnArg {
     }
     pub fn is_filter(&self) -> bool {
         matches!(self, FnArg::Filter(_))
+    }
+    /// Can be used where a function declares a ValueType parameter:
+    /// a literal, a singular query or a function expression returning a value.
+    pub fn is_value_type(&self) -> bool {
+        fn singular(segments: &[Segment]) -> bool {
+            segments.iter().all(|s| {
+                matches!(
+                    s,
+                    Segment::Selector(Selector::Name(_)) | Segment::Selector(Selector::Index(_))
+                )
+            })
+        }
+        match self {
+            FnArg::Literal(_) => true,
+            FnArg::Test(test) => match &**test {
+                Test::RelQuery(segments) => singular(segments),
+                Test::AbsQuery(query) => singular(&query.segments),
+                Test::Function(func) => func.is_comparable(),
+            },
+            FnArg::Filter(_) => false,
+        }
+    }
+    /// Can be used where a function declares a NodesType parameter: a query.
+    pub fn is_nodes_type(&self) -> bool {
+        match self {
+            FnArg::Test(test) => matches!(**test, Test::RelQuery(_) | Test::AbsQuery(_)),
+            _ => false,
+        }
     }
 }
 
